@@ -146,6 +146,7 @@ func init() {
 		return mkStr(b)
 	})
 	ext("strings.Clone", func(fr *frame, a []value) value { return a[0] })
+	ext("internal/stringslite.Clone", func(fr *frame, a []value) value { return a[0] })
 	ext("strings.Join", func(fr *frame, a []value) value {
 		var out []value
 		sep := toBytes(a[1])
